@@ -282,6 +282,22 @@ theorem Prov.finishCycle {T U : List Nat} {s : Sys} (h : Prov T U s) (kept : Lis
   · exact hsplit.2
   · intro c hc; cases hc
 
+theorem Prov.finishCycleP {T U : List Nat} {s : Sys} (h : Prov T U s) (kept : List (Nat × Ring Cmd)) (buf buf2 : List Cmd)
+    (hk : RingsOk T kept) (hb : ∀ c ∈ buf, CmdOk T c) (hb2 : ∀ c ∈ buf2, CmdOk T c) :
+    Prov T U (s.finishCycleP kept buf buf2).1 ∧ ∀ rs, (s.finishCycleP kept buf buf2).2 = some rs → RecsOk T rs := by
+  unfold Sys.finishCycleP
+  split
+  · have := h.finishCycle kept buf (buf2 ++ (takeParked (s.deferred ++ commitsOf buf) s.parkedCancels).1.map Cmd.drop) hk hb
+      (by
+        intro c hc
+        simp only [List.mem_append, List.mem_map] at hc
+        rcases hc with hc | ⟨id, _, rfl⟩
+        · exact hb2 c hc
+        · trivial)
+    dsimp only
+    exact ⟨(this.1.withParked _).withG _, this.2⟩
+  · exact h.finishCycle kept buf buf2 hk hb hb2
+
 theorem drainAll_ok {T : List Nat} (rxs : List (Nat × Ring Cmd)) (h : RingsOk T rxs) :
     RingsOk T (drainAll rxs).1 ∧ ∀ c ∈ (drainAll rxs).2, CmdOk T c := by
   induction rxs with
@@ -310,7 +326,7 @@ theorem Prov.cycle {T U : List Nat} {s : Sys} (h : Prov T U s) :
     Prov T U s.cycle.1 ∧ ∀ rs, s.cycle.2 = some rs → RecsOk T rs := by
   unfold Sys.cycle
   have hd := drainAll_ok s.rxs h.rxs
-  exact (h.withG _).finishCycle _ _ [] hd.1 hd.2 (by simp)
+  exact (h.withG _).finishCycleP _ _ [] hd.1 hd.2 (by simp)
 
 /-- what the drain state of a cycle in progress holds -/
 def CycOk (T : List Nat) (cs : CycState) : Prop :=
@@ -346,7 +362,7 @@ theorem Prov.cycStep {T U : List Nat} {s : Sys} (h : Prov T U s) :
     dsimp only
     split
     · -- atReport
-      have := h.finishCycle cs.kept cs.buf cs.buf2 h2 h3 h4
+      have := h.finishCycleP cs.kept cs.buf cs.buf2 h2 h3 h4
       dsimp only
       exact ⟨this.1, fun rs e => this.2 rs (by simpa using e)⟩
     · -- atRx2
